@@ -61,6 +61,6 @@ def run(tier, seed):
         w.update(sizes=sizes, big=big)
     chk.standin_on_out_of_reach("native BLOB transfer grid", "blob.grid", w,
                                 bound_text="payload lengths across the 1024-byte read size and the 2048-character threshold (thorough: every length in four windows and up to 3 MiB downstream) x reads of 1024 / 97 / 1 "
-                                           "x policy {unset, Never, Also, Only} x direction; uploads limited to messages below the server-side threshold (larger ones: known finding F21)", always=True)
+                                           "x policy {unset, Never, Also, Only} x direction; uploads limited to messages below the server-side threshold (larger ones: known finding F21)", always=True, timeout=1800)
     chk.min_obligations = 60
     return chk.finish()
